@@ -322,6 +322,9 @@ class MolQueryReader(object):
         except Exception:
             msg = 'Atom Label '+tree[3][1]+' not found'
             raise RINGReaderError(msg)
+        if idx_connected == idx:
+            raise RINGReaderError('Atom ' + tree[1][1]
+                                  + ' is bonded to itself')
         self.ReadBondTypeBondedAtom(idx, idx_connected,
                                     bondtype, molquery)
 
